@@ -10,7 +10,7 @@ impl Deserialize for FixedTransactionBodies {
                 cbor_event::Len::Len(n) => arr.len() < n as usize,
                 cbor_event::Len::Indefinite => true,
             } {
-                if is_break_tag(raw, "FixedTransactionBodies")? {
+                if is_break_tag(raw, &len, "FixedTransactionBodies")? {
                     break;
                 }
                 arr.push(FixedTransactionBody::deserialize(raw)?);
